@@ -19,6 +19,15 @@
    * handleFatalError: sync.Once { error event; Stop() } ([handle_fatal]);
    * the sync event: once, only while not stopped ([do_sync]).
 
+   NOT modelled: the delayed re-check of an unschedulable Pod (taskManager,
+   newStatusCheckTaskFunc, unschedulable.go).  The status the library computes
+   for such a pod changes with the wall clock (InProgress inside
+   status.ScheduleWindow after creationTimestamp, Failed beyond), which
+   contradicts the premise of this model that the status is a function of the
+   version ([p_status]); a tick step would have to mutate the cluster's statuses.
+   That behaviour is checked by the monitor of Corr/CorrC16.v on real 17 s runs
+   (fields rc_tick / rc_late) and by no theorem.
+
    Abstractions: the status the library computes for a version is carried by the
    mutation ([p_status]; the harness obtains it from the library); informers
    deliver notifications one at a time in cluster order; goroutines spawned by
